@@ -58,8 +58,8 @@ CLAIMED.update({
                 "facts show the sink/source is owned by one thread and workers hold only their payload and result slot; the ticket "
                 "(a Receiver, checked from resolved generic args) is enqueued in the caller's body before the work is spawned "
                 "(dominance); the consumer blocks on the dequeued ticket (callee is Receiver::recv, never try_recv) before write_frame; "
-                "EOF marker before Ok; MT and ST writers share the chunking constant (evaluated) and codecs. Termination of finish() is not decided.",
-        "note": "trusts crossbeam FIFO, rayon::spawn-once, JoinHandle::join; no yield hook is needed by this technique",
+                "EOF marker before Ok; MT and ST writers share the chunking constant (evaluated) and codecs; no explicit panic in the MT writer (the Done state entered after a sink failure is an error exit). Termination of finish() is not decided.",
+        "note": "trusts crossbeam FIFO, rayon::spawn-once, JoinHandle::join; no yield hook is needed by this technique; genuine defect F9 (finish() panicked after a surfaced sink failure) repaired (fix: e72c97b)",
         "technique": "static analysis: closure-capture ownership, dominance of ticket send over spawn, callee identity of blocking receives (MIR)",
         "design_ref": "§5 C03",
     },
@@ -83,7 +83,8 @@ CLAIMED.update({
         "text": "Escaping half of the VCF round trip decided structurally: the evaluated percent-encode sets (and the character writers' "
                 "matches! patterns) contain the VCF §1.2 reserved bytes and every delimiter constant the column's readers split on; "
                 "a column encoded on write is decoded in every read view (eager, lazy, array iterators: callers of the shared decoder); "
-                "lone '.' escape present; variant span has one provided implementation. Value equality over the grammar is not decided.",
+                "lone '.' escape present; variant span has one provided implementation; every success path of the parser resets each column of a reused "
+                "RecordBuf (samples tabled as not decided); line buffers are reset before each appended line. Value equality over the grammar is not decided.",
         "note": "trusts the percent-encoding crate; delimiter harvest is by named constants with a floor",
         "technique": "static analysis: evaluated AsciiSet constants vs spec table, HIR match-pattern sets, caller sets of encode/decode helpers, trait impl table",
         "design_ref": "§5 C09",
@@ -91,7 +92,8 @@ CLAIMED.update({
     "C11": {
         "text": "Guards of indexed FASTA access decided on MIR: offset returned only after start was compared with the sequence length, "
                 "bounded copy min(remaining, window) in the limited sequence reader, indexer's consistency comparisons reach error exits "
-                "and records are emitted only after the last-line test, fill_buf scanners are not window-assuming. Offset arithmetic is not decided.",
+                "and records are emitted only after the last-line test, fill_buf scanners are not window-assuming, FASTQ read_record resets the reused "
+                "record with a field-complete clear(), append-buffer discipline of all FASTA/FASTQ readers. Offset arithmetic is not decided.",
         "note": "one genuine defect found by R1 was repaired (fix: 95ab786); the `%`-operand arithmetic mutant of DESIGN §2 stays invisible",
         "technique": "static analysis: guard dominance, data-flow of min() into extend/consume, must-pass-through (MIR)",
         "design_ref": "§5 C11",
@@ -99,7 +101,8 @@ CLAIMED.update({
     "C18": {
         "text": "Escaping clauses decided structurally: per GFF3 column encoded-on-write iff decoded-in-every-read-view (caller sets), evaluated "
                 "attribute/seqid encode sets vs the GFF3 spec and vs reader delimiter constants, GTF escape set of the writer equals the set "
-                "the reader accepts after a backslash (match-pattern tables), values always quoted, owned record built from the lazy accessors.",
+                "the reader accepts after a backslash (match-pattern tables), values always quoted, owned record built from the lazy accessors, "
+                "line buffers reset before every appended line (incl. the blank-line skip loop).",
         "note": "known finding F7 (seqid encoded, never decoded) by exact key; equality over arbitrary UTF-8 not decided",
         "technique": "static analysis: evaluated AsciiSet constants, HIR match-pattern sets, caller sets of encode/decode helpers",
         "design_ref": "§5 C18",
@@ -124,8 +127,8 @@ CLAIMED.update({
         "text": "Structural necessary conditions of the BAM record codec: no non-constant narrowing `as` cast in the encoder/writer closure "
                 "that the interval domain or a confirmed table does not cover, lengths/counts through try_from, CIGAR-overflow pairing "
                 "(CG tag on encode, resolve on decode, lazy view) by must-pass-through, confirmed writers of the raw record buffer with "
-                "validation on both read paths, dec∘enc = id exhaustively for the kind/type/subtype tables, reg2bin geometry constants. "
-                "Whole-record equality and value boundaries are not decided.",
+                "validation on both read paths, dec∘enc = id exhaustively for the kind/type/subtype tables, reg2bin geometry constants, and the reused-destination rule: every success path of "
+                "decode() overwrites or clears each RecordBuf column. Whole-record equality and value boundaries are not decided.",
         "note": "interval reasoning is dominance-based; three casts are tabled with reasons",
         "technique": "static analysis: interval domain over MIR for casts, must-pass-through, who-may-write, HIR match-table agreement, evaluated constants",
         "design_ref": "§5 C05",
@@ -137,7 +140,8 @@ CLAIMED.update({
         "text": "Structural half of the BCF typed encoding: value-range and reserved-code constants vs BCFv2.2 §6.3.3 (evaluated), every "
                 "`as i8`/`as i16` in the encoder proven by the interval domain to lie inside [MIN_VALUE, MAX_VALUE] (reserved codes excluded), "
                 "width dispatch compares against exactly those constants, dec∘enc = id for the type-descriptor codes against both decoders, "
-                "explicit panics in the encoder closure vs a triaged table, string-map lookups are error exits. Record equality and "
+                "explicit panics in the encoder closure vs a triaged table, string-map lookups are error exits, the decoder overwrites every column of "
+                "the reused vcf RecordBuf. Record equality and "
                 "per-sample padding are not decided.",
         "note": "one genuine defect (encoder todo!() on a missing INFO value) was repaired (fix: d137c9d)",
         "technique": "static analysis: interval domain with dominating guards over MIR, evaluated constants, HIR match-table agreement, panic inventory",
@@ -151,7 +155,7 @@ CLAIMED.update({
                 "reader's is_eof constants; finalisation must-pass-through; CRC32/MD5 integrity guards on every success exit of the block and "
                 "container-header readers (sync and async) and the writer's CRC taken from its CrcWriter; dec∘enc = id for all CRAM code tables; "
                 "Encoder->CompressionMethod labelling; the 28 data series and the guard edges that dominate each accessor call agree between "
-                "slice reader and slice writer (guard signatures). Record equality and codec correctness are not decided.",
+                "slice reader and slice writer (guard signatures); AP delta symmetry; append-buffer discipline of the header/token readers. Record equality and codec correctness are not decided.",
         "note": "trusts flate2 CRC and md5; symmetric read_x/write_x structure is floor-checked; three guard asymmetries are tabled with reasons",
         "technique": "static analysis: evaluated constants, guard dominance, HIR match-table agreement, guard-signature comparison of sibling codecs (MIR edge dominance)",
         "design_ref": "§5 C07",
@@ -163,7 +167,7 @@ CLAIMED.update({
         "text": "Four structural necessary conditions of query = scan, explicitly partial: every query loop (8 sync/async instances + CSI "
                 "FilterByRegion) returns a record only on the true edge of its intersects(..)? test; the five indexers build each chunk from a "
                 "position before and a position after the same record read (def-use); one span definition shared by indexer and filter; "
-                "add_record rejects unsorted input; binned-index min_offset is a minimum over several bins. The heart of C04 — bin assignment, "
+                "add_record rejects unsorted input; binned-index min_offset is a minimum over several bins; reg2bin (indexer) and reg2bins (query) agree on the coordinate convention (exactly one `- 1` on start/end before the shifts). The heart of C04 — bin assignment, "
                 "chunk merging and pruning for every layout x region — is coordinate arithmetic and is NOT decided.",
         "note": "weak claim by design; a genuine completeness defect in the CSI min_offset (found by reading, not by a rule) was repaired (fix: 42bd27d) and R5 pins its necessary condition",
         "technique": "static analysis: edge dominance of the filter test over record-returning exits, def-use ordering of chunk bounds, trait impl table (MIR/HIR)",
@@ -183,10 +187,11 @@ CLAIMED.update({
 CLAIMED.update({
     "C17": {
         "text": "Index-file pairing clauses only: metadata pseudo-bin identified through Bin::metadata_id by all 12 reader/writer functions of "
-                "BAI/CSI/tabix (sync+async), evaluated id/chunk-count constants, pseudo-bin counted iff present, duplicate bins rejected, magic "
-                "numbers single-sourced, optional trailing count read as optional. Binning arithmetic (reg2bin ∈ reg2bins, optimize_chunks) and "
+                "BAI/CSI/tabix (sync+async), evaluated id/chunk-count constants, pseudo-bin counted and written on every success path on which metadata is "
+                "present (path rule over six write_bins bodies), duplicate bins rejected, magic numbers single-sourced, optional trailing count read as "
+                "optional, reg2bin/reg2bins coordinate convention, append-buffer discipline of the text index readers (crai, fai). Binning arithmetic (reg2bin ∈ reg2bins, optimize_chunks) and "
                 "byte layout are NOT decided.",
-        "note": "weak claim by design; the CSI loffset write transform (read(write(ix)) != ix, findings/repro f4) is query-equivalent after fix 42bd27d and therefore not armed",
+        "note": "genuine defect F14 (crai read_index never cleared its line buffer: every multi-entry CRAI unreadable) found by R7 and repaired (fix: f7bcce1); the CSI loffset write transform (read(write(ix)) != ix, findings/repro f4) is query-equivalent after fix 42bd27d and therefore not armed",
         "technique": "static analysis: caller sets, evaluated constants, presence/dominance of the pseudo-bin guards (MIR)",
         "design_ref": "§5 C17",
     },
@@ -202,7 +207,8 @@ CLAIMED.update({
         "text": "Detection/dispatch tables: util magic literals equal the writers' constants (evaluated); reader-builder and writer-builder map "
                 "every (Format, CompressionMethod) key to the same inner variant with a constructor of that format crate and bgzf wrapping iff "
                 "compressed (HIR match-arm tables, alignment+variant, sync+async); detection window assumption (known finding F6); finish reaches "
-                "every arm; default compression. Conversions are NOT decided.",
+                "every arm; default compression; configuration plumbing: every field of every workspace Builder struct is read by a consumer (an option "
+                "stored by a setter cannot be silently ignored). Conversions are NOT decided.",
         "note": "R2 found a genuine defect (swapped BCF writer arms), repaired (fix: 087a76d); F6 listed by exact keys",
         "technique": "static analysis: HIR match-table agreement between sibling builders, evaluated constants, fill_buf window classification",
         "design_ref": "§5 C20",
@@ -214,7 +220,8 @@ CLAIMED.update({
         "text": "Structural half of the SAM text round trip: write_record calls the twelve field writers in SAM column order and feeds each from "
                 "the accessor of that column; the k-th split field of the eager parser reaches the setter of column k (data flow, insensitive "
                 "to statement order); dec∘enc = id for the text codings of CIGAR kinds, aux types (many-to-one: width is not carried) and array "
-                "subtypes against all decoders of the family incl. the lazy record's; missing markers; BAM header dictionary check; RNEXT '='. "
+                "subtypes against all decoders of the family incl. the lazy record's; missing markers; BAM header dictionary check; RNEXT '='; every success "
+                "path of the parser resets each column of a reused RecordBuf; every appended line buffer is reset first (append-buffer discipline). "
                 "Float text, integer widths, fixed-point equality and the header grammar are NOT decided.",
         "note": "value formatting is unit-test territory",
         "technique": "static analysis: call sequences in reverse post-order, def-use from split/accessor to setter/writer, HIR match-table agreement, evaluated constants",
@@ -275,6 +282,8 @@ def main():
         "checks": checks,
         "not_applicable": na,
         "notes": "All checks share one fact extraction of /repo's current working tree (cached by source hash under /verif/.cache). "
+                 "quick = build configuration D (every feature except libdeflate); thorough = every rule decided again on configuration L "
+                 "(--all-features, libdeflate codec variants) plus the K5 overflow inventory. "
                  "Level is 'other' throughout: each check decides named structural clauses that are necessary conditions of the property, never the behaviour as a whole.",
     }
     with open(os.path.join(VERIF, "MANIFEST.json"), "w") as fh:
